@@ -1,5 +1,5 @@
 //! Oracles evaluated after every call, at checkpoints and at session end.
-use crate::disk::{Store, WriteRec};
+use crate::disk::{FaultPlan, Store, WriteRec};
 use crate::engine::*;
 use crate::exec::Outcome;
 use crate::model::{NodeId, E, ROOT};
@@ -913,6 +913,44 @@ pub fn extents_check(w: &mut World, s: &Session, p: &Parsed) -> Result<(), Viola
             if want != ext {
                 return Err(viol("C04", "extents-geometry-differs", format!("{}: extents {:?}, independent chain geometry {:?}", path, ext, want), w.step_no));
             }
+        }
+    }
+    Ok(())
+}
+
+/// C05 across a power cut inside unmount / drop: for every prefix of the device writes the unmount issued, the image
+/// is mounted and `stats()` must equal the free entries of the table (which the unmount does not touch).
+pub fn unmount_crash_check(w: &mut World, pre_end: &Store, writes: &[WriteRec]) -> Result<(), Violation> {
+    let want = w.parsed()?.free;
+    for k in 0..=writes.len() {
+        let mut img = pre_end.clone();
+        for wr in &writes[..k] {
+            if wr.data.len() != wr.len as usize {
+                return Ok(());
+            }
+            img.write_at(wr.off, &wr.data);
+        }
+        let sd = std::rc::Rc::new(std::cell::RefCell::new(crate::disk::DiskState::new(img)));
+        sd.borrow_mut().log_mode = crate::disk::LogMode::Off;
+        sd.borrow_mut().arm(FaultPlan { budget: 2_000_000 + 5 * u64::from(w.geo.n_clusters), ..FaultPlan::default() });
+        let opts = fs_options(&w.cfg, &w.clock);
+        let r = guarded(move || -> Result<u32, FErr> {
+            let fs = Fs::new(crate::disk::SimDisk::new(sd), opts)?;
+            let n = fs.stats()?.free_clusters();
+            std::mem::drop(fs);
+            Ok(n)
+        });
+        w.stats.unmount_crash_images += 1;
+        let what = format!("power cut after device write {} of the {} that unmount / drop issued", k, writes.len());
+        match r {
+            Guarded::Done(Ok(n)) => {
+                if n != want {
+                    return Err(viol("C05", "free-count-differs-after-interrupted-unmount", format!("{}: remount reports {} free clusters, the table has {}", what, n, want), w.step_no));
+                }
+            }
+            Guarded::Done(Err(e)) => return Err(viol("C05", "remount-failed-after-interrupted-unmount", format!("{}: {:?}", what, e), w.step_no)),
+            Guarded::Panic(m) => return Err(viol("C05", "panic", format!("{}: {}", what, m), w.step_no)),
+            Guarded::Hang => return Err(viol("C05", "hang", what, w.step_no)),
         }
     }
     Ok(())
